@@ -141,8 +141,11 @@ def h_div(env):
         env.check('gcd_monic', g.value[-1] == 1 if g.value else True)
         _same(env, 'gcdext_same_gcd', gg.value, g.value, p)
         _same(env, 'bezout', g.value, r_add(r_mul(s.value, a), r_mul(t.value, b)), p)
-        env.check('gcd_divides_a', (A % g).value == [])
-        env.check('gcd_divides_b', (B % g).value == [])
+        if g.value == []:
+            env.check('gcd_is_zero_only_for_zero_operands', a == [] and b == [])
+        else:
+            env.check('gcd_divides_a', (A % g).value == [])
+            env.check('gcd_divides_b', (B % g).value == [])
         _same(env, 'gcd_commutes', P.gcd(B, A).value, g.value, p)
     elif what == 'invert':
         g = P.gcd(A, B)
@@ -260,6 +263,10 @@ def instances(tier):
                     if what == 'powmod' and (db < 1 or (p == 5 and da > 1)):
                         continue
                     out.append(Inst(f'{what}[p={p},deg {da}/{db}]', h_div, dict(p=p, da=da, db=db, what=what), **T))
+    # gcd / gcdext with a zero operand (second or both): the result must still be the monic associate
+    for p, D in ((3, 2), (5, 2)):
+        for da in range(-1, D + 1):
+            out.append(Inst(f'gcd[p={p},deg {da}/-1]', h_div, dict(p=p, da=da, db=-1, what='gcd'), **T))
     out.append(Inst('division_by_zero', h_zero_div, {}, timeout=600))
     out.append(Inst(f'binary_vs_generic[deg<={3 if q else 4}]', h_binary, dict(deg=3 if q else 4), **T))
     out.append(Inst('twin_degree_drops', h_twin, {}, twin=True, expect='violated'))
